@@ -284,6 +284,10 @@ func c02Roi(c *Ctx) {
 				m["POST roi/ptquery"] = fmt.Sprintf("%d %s", q.Code, q.Body)
 				k := Get(fmt.Sprintf("node/%s/roi/mask/0_1_2/256_128_%d/0_320_%d", root, 32*(nz+2), 32*(z0-1)))
 				m["GET roi/mask"] = fmt.Sprintf("%d %s", k.Code, fmt.Sprintf("%x", sha256.Sum256(k.Body)))
+				for _, pq := range []string{"partition?batchsize=2", "partition?batchsize=2&optimized=true"} {
+					pr := Get("node/" + root + "/roi/" + pq)
+					m["GET roi/"+pq] = fmt.Sprintf("%d %s", pr.Code, pr.Body)
+				}
 				return m
 			}
 			before := snap()
@@ -291,7 +295,7 @@ func c02Roi(c *Ctx) {
 				now := snap()
 				c.Eval("roi committed reads after "+after, true)
 				c.Count("stability.roi." + strings.Fields(after)[0])
-				for _, k := range []string{"GET roi/roi", "POST roi/ptquery", "GET roi/mask"} {
+				for _, k := range []string{"GET roi/roi", "POST roi/ptquery", "GET roi/mask", "GET roi/partition?batchsize=2", "GET roi/partition?batchsize=2&optimized=true"} {
 					if before[k] != now[k] {
 						c.Report("O", "C02 committed-read-changed roi", "a read of an ROI at a committed version changed after a later version edited the ROI",
 							fmt.Sprintf("%s\n%s at the committed root\n  before: %s\n  after:  %s", strings.Join(hist, "\n"), k, trunc(before[k]), trunc(now[k])))
